@@ -3,6 +3,7 @@ package main
 // Calls (by contract), builtins, trusted externals, defers, panics, closures, function exit.
 
 import (
+	"go/ast"
 	"fmt"
 	"go/token"
 	"go/types"
@@ -65,8 +66,14 @@ func (e *Enc) dynName(v ssa.Value) string {
 	case *ssa.Phi:
 		return x.Comment
 	case *ssa.Extract:
+		if n := debugIdent(x); n != "" {
+			return n
+		}
 		return "extract"
 	case *ssa.Call:
+		if n := debugIdent(x); n != "" {
+			return n
+		}
 		return "resultof:" + e.callName(x.Common())
 	}
 	return v.Name()
@@ -540,8 +547,9 @@ func (e *Enc) applyContract(ci ssa.CallInstruction, fc *FuncContract, fn *ssa.Fu
 		}
 		e.oblige(fmt.Sprintf("inv@%s", name), fmt.Sprintf("%d.site%d", k, e.siteNo("inv@"+name)), nil, t, "closure invariant of "+name+": "+cl.Text, pos)
 	}
-	// 2. frame
-	if fc.ModAll {
+	// 2. frame: a contract without a modifies clause promises nothing about the heap (its body is not
+	// frame-checked either), so the caller must assume everything may have changed
+	if fc.modifiesAll() {
 		e.cur = e.havocAll(e.cur)
 	} else {
 		for _, m := range fc.Modifies {
@@ -1350,6 +1358,10 @@ func (e *Enc) callWrites(li *loopInfo, ci ssa.CallInstruction, ws writeSets) boo
 			}
 		}
 	}
+	// a go statement has no effect on this thread's state (the spawned thread is verified separately)
+	if _, isGo := ci.(*ssa.Go); isGo {
+		return false
+	}
 	// atomic cells and other builtin receivers: like a store through the receiver
 	if !c.IsInvoke() {
 		if fn, ok := c.Value.(*ssa.Function); ok && strings.HasPrefix(fn.String(), "(*sync/atomic.") {
@@ -1392,12 +1404,18 @@ func (e *Enc) callWrites(li *loopInfo, ci ssa.CallInstruction, ws writeSets) boo
 			}
 		}
 	}
-	if fc != nil && !fc.ModAll {
+	if fc != nil && !fc.modifiesAll() {
 		inv := true
 		var args []Term
 		for _, a := range c.Args {
 			if !e.definedOutside(li, a) {
-				// an argument computed inside the loop: harmless unless a modifies target mentions it
+				// an argument computed inside the loop: a chain of field loads from a loop-invariant root is
+				// evaluated in the state at loop entry (the later check that no address term reads a heap the
+				// loop writes keeps this sound); anything else is harmless unless a modifies target mentions it
+				if t, ok := e.loadChainTerm(li, a, 0); ok {
+					args = append(args, t)
+					continue
+				}
 				args = append(args, T("POISON", e.tr.sortOf(a.Type())))
 				continue
 			}
@@ -1506,7 +1524,7 @@ func (e *Enc) callModifies(ci ssa.CallInstruction) (map[string]string, bool) {
 
 func (e *Enc) contractModNames(fc *FuncContract, fn *ssa.Function, c *ssa.CallCommon) (map[string]string, bool) {
 	names := map[string]string{}
-	if fc.ModAll {
+	if fc.modifiesAll() {
 		return nil, true
 	}
 	se := &specEnv{e: e, old: e.entry, cur: e.entry, binds: map[string]specVal{}, noLocal: true, pure: true}
@@ -1559,4 +1577,59 @@ func isSelectPanicBlock(b *ssa.BasicBlock) bool {
 		}
 	}
 	return true
+}
+
+
+// loadChainTerm: the value of v (defined inside loop li) when v is a chain of pointer-field loads
+// rooted at a value defined outside the loop, read in the current (loop entry) state.
+func (e *Enc) loadChainTerm(li *loopInfo, v ssa.Value, depth int) (Term, bool) {
+	if depth > 6 {
+		return Term{}, false
+	}
+	if e.definedOutside(li, v) {
+		if t, ok := e.vals[v]; ok {
+			return t, true
+		}
+		return Term{}, false
+	}
+	u, ok := v.(*ssa.UnOp)
+	if !ok || u.Op != token.MUL {
+		return Term{}, false
+	}
+	fa, ok := u.X.(*ssa.FieldAddr)
+	if !ok {
+		return Term{}, false
+	}
+	st := derefType(fa.X.Type())
+	if _, isMod := e.tr.isModuleStruct(st); !isMod {
+		return Term{}, false
+	}
+	ft := st.Underlying().(*types.Struct).Field(fa.Field).Type()
+	switch ft.Underlying().(type) {
+	case *types.Pointer:
+	default:
+		return Term{}, false
+	}
+	base, ok := e.loadChainTerm(li, fa.X, depth+1)
+	if !ok {
+		return Term{}, false
+	}
+	h := e.lookup(e.cur, heapFieldName(e.tr, st, fa.Field), ArraySort(SInt, e.tr.sortOf(ft)))
+	return Select(h, base), true
+}
+
+
+// debugIdent: the source identifier a value is bound to (from its DebugRef), if any.
+func debugIdent(v ssa.Value) string {
+	if v.Referrers() == nil {
+		return ""
+	}
+	for _, r := range *v.Referrers() {
+		if d, ok := r.(*ssa.DebugRef); ok && !d.IsAddr {
+			if id, ok := d.Expr.(*ast.Ident); ok && id.Name != "_" {
+				return id.Name
+			}
+		}
+	}
+	return ""
 }
